@@ -197,7 +197,9 @@ impl Prop for C03 {
                 if o.failure.is_none() && *via == Via::Protocol && crate::runner::digest(st.version_name.as_bytes()) % 24 == 0 {
                     let spec2 = spec.clone();
                     let make = move || Box::new(McServer::new(spec2.clone())) as Box<dyn crate::wire::Responder>;
-                    crate::realnet::fidelity("C03 java", Proto::Tcp, make, &run, 1500, |a, t| minecraft::protocol::query_java(&a, t, None), &FIDELITY);
+                    if let Some(real) = crate::realnet::fidelity("C03 java", Proto::Tcp, make, &run, 1500, |a, t| minecraft::protocol::query_java(&a, t, None), &FIDELITY) {
+                        o.fail(format!("C03|real sockets|C03 java|differs from the scripted transport|{real}"), serde_json::json!({"over_real_loopback_sockets": real, "scripted_transport": "Ok (equal to the reference value)"}));
+                    }
                 }
                 if o.failure.is_none() && *via == Via::Games && attempts(&run.log) != vec![(Proto::Tcp, 25565)] {
                     o.fail("C03|games::minecraft::query_java|port|default port", json!({"attempts": format!("{:?}", attempts(&run.log))}));
@@ -217,7 +219,9 @@ impl Prop for C03 {
                 if o.failure.is_none() && *via == Via::Protocol && crate::runner::digest(st.motd.as_bytes()) % 24 == 0 {
                     let spec2 = spec.clone();
                     let make = move || Box::new(McServer::new(spec2.clone())) as Box<dyn crate::wire::Responder>;
-                    crate::realnet::fidelity("C03 bedrock", Proto::Udp, make, &run, 1000, |a, t| minecraft::protocol::query_bedrock(&a, t), &FIDELITY);
+                    if let Some(real) = crate::realnet::fidelity("C03 bedrock", Proto::Udp, make, &run, 1000, |a, t| minecraft::protocol::query_bedrock(&a, t), &FIDELITY) {
+                        o.fail(format!("C03|real sockets|C03 bedrock|differs from the scripted transport|{real}"), serde_json::json!({"over_real_loopback_sockets": real, "scripted_transport": "Ok (equal to the reference value)"}));
+                    }
                 }
                 if o.failure.is_none() && *via == Via::Games && attempts(&run.log) != vec![(Proto::Udp, 19132)] {
                     o.fail("C03|games::minecraft::query_bedrock|port|default port", json!({"attempts": format!("{:?}", attempts(&run.log))}));
